@@ -12,6 +12,8 @@ trap cleanup EXIT
 mkdir -p "$WT/demo"
 cp "$SEED"/demo.c "$SEED"/build.sh "$WT/demo/"
 [ -f "$SEED/extra_files.txt" ] && (cd "$SEED" && cat extra_files.txt | xargs -I{} cp {} "$WT/demo/")
+# sub-directories of the demonstration (e.g. a replacement header directory)
+for d in "$SEED"/*/; do [ -d "$d" ] && cp -r "$d" "$WT/demo/"; done
 # optional: extra CFLAGS for the library when building it FOR THE DEMO (e.g. -DSKINNY_C_VERIF to pin a back end);
 # the repository's tests are always run on the normal build
 LIBF=""; [ -f "$SEED/libcflags" ] && LIBF="$(cat "$SEED/libcflags")"
